@@ -91,7 +91,7 @@ func (v *Vue) interpolateToWriter(ctx VueContext, w io.Writer, input string) err
 		if val != nil {
 			// The value is substituted as it is: text and attribute values are
 			// escaped once, by the serialiser, when the document is written
-			if _, err := io.WriteString(w, fmt.Sprint(val)); err != nil {
+			if _, err := io.WriteString(w, helpers.Sprint(val)); err != nil {
 				return err
 			}
 		}
